@@ -28,6 +28,13 @@ Definition ee (a : reg) (p : nat) (e : err) : reg := add_alt_err false K a p e.
 Definition join (a : reg) (new : reg) : reg :=
   match new with Some (p, e) => ee a p e | None => a end.
 
+(* "expected .. found <token at p>" recorded at p *)
+Definition fail_at (a : reg) (p : nat) (exp : list N) : reg :=
+  match nth_error toks p with
+  | Some t => ef a p exp (Some t) (spn p (S p))
+  | None => ef a p exp None (spn p p)
+  end.
+
 Definition one_tok_sem (acc : tok -> option val) (exp : list N) (p : nat) (a : reg) : sres :=
   match nth_error toks p with
   | Some t => match acc t with
@@ -331,7 +338,7 @@ Fixpoint sem (n : nat) (g : G) (ctx : val) (p : nat) (a : reg) {struct n} : opti
   | Choice gs => choice_sem run gs ctx p a
   | ChoiceVec gs =>
       match gs with
-      | [] => Some (None, ef a p [] None (spn p p))
+      | [] => Some (None, fail_at a p [])
       | _ => choice_sem run gs ctx p a
       end
   | OrNot x =>
@@ -376,7 +383,7 @@ Fixpoint sem (n : nat) (g : G) (ctx : val) (p : nat) (a : reg) {struct n} : opti
   | CollectExactly k i =>
       match sdrive run (S k) i ctx (mk_iter i ctx) (Some k) [] [] p a with
       | Some (Some (items, false, p1, e1), a1) => Some (Some (VList (rev (map sitem_val items)), p1, e1), a1)
-      | Some (Some (_, true, _, _), a1) => Some (None, a1)
+      | Some (Some (_, true, p1, _), a1) => Some (None, fail_at a1 p1 [pSomethingElse])
       | Some (None, a1) => Some (None, a1)
       | None => None
       end
